@@ -1823,6 +1823,20 @@ class __compute_selector_default:
 _compute_selector_default = __compute_selector_default()
 
 
+class __compute_selector_names_default:
+    def __call__(self, p):
+        return {}
+
+    def __repr__(self):
+        return repr(self.sig)
+
+    @property
+    def sig(self):
+        return None
+
+_compute_selector_names_default = __compute_selector_names_default()
+
+
 class __compute_selector_checking_default:
     def __call__(self, p):
         return len(p.objects) != 0
@@ -1841,6 +1855,7 @@ class _SignatureSelector(Parameter):
     # Needs docstring; why is this a separate mixin?
     _slot_defaults = dict(
         SelectorBase._slot_defaults, _objects=_compute_selector_default,
+        names=_compute_selector_names_default,
         compute_default_fn=None, check_on_set=_compute_selector_checking_default,
         allow_None=None, instantiate=False, default=None,
     )
@@ -1937,6 +1952,11 @@ class Selector(SelectorBase, _SignatureSelector):
         if isinstance(objects, collections.abc.Mapping):
             self.names = objects
             self._objects = list(objects.values())
+        elif objects is Undefined:
+            # not specified: the objects AND their names come from the
+            # parent classes (or the type's default, none)
+            self.names = Undefined
+            self._objects = objects
         else:
             self.names = {}
             # never store a proxy (e.g. handed back by `p.objects += [...]`)
